@@ -350,7 +350,33 @@ def run_world(ctx, name, spec):
             "wall_s": round(time.time() - wall, 2), "module": "MC_WorldSim (-simulate) -> pkv replay-world"}
 
 
+def run_tlapm(ctx, name, spec):
+    """TLAPS: machine-checked proofs (unbounded) that complement TLC's bounded alphabets"""
+    d = os.path.join(WORK, "tlapm", name)
+    shutil.rmtree(d, ignore_errors=True)
+    os.makedirs(d)
+    for f in spec["files"]:
+        shutil.copy(os.path.join(SPEC, f), d)
+    t = time.time()
+    try:
+        p = subprocess.run(["tlapm", "--threads", "8", "--cleanfp", spec["files"][0]], cwd=d, stdout=subprocess.PIPE,
+                           stderr=subprocess.STDOUT, text=True, timeout=spec.get("timeout", 1200))
+    except subprocess.TimeoutExpired:
+        raise ToolError("tlapm job %s timed out" % name)
+    m = re.search(r"All (\d+) obligations? proved", p.stdout)
+    if not m:
+        raise ToolError("tlapm job %s: not all obligations proved\n%s" % (name, p.stdout[-3000:]))
+    n = int(m.group(1))
+    shutil.rmtree(d, ignore_errors=True)
+    return {"job": name, "verdict": "ok", "exit": p.returncode, "records": [],
+            "notes": [{"tlaps_obligations": n, "tlaps_discharged": n, "module": spec["files"][0]}],
+            "stats": {"generated": 0, "distinct": 0}, "wall_s": round(time.time() - t, 2),
+            "module": spec["files"][0] + " (tlapm)"}
+
+
 def run_pkv_job(ctx, name, spec):
+    if spec["kind"] == "tlapm":
+        return run_tlapm(ctx, name, spec)
     if spec["kind"] == "world":
         return run_world(ctx, name, spec)
     if spec["kind"] == "selfreplay":
@@ -561,6 +587,7 @@ JOBS = {
                               env={"GRAPH": "art:g_set1_default", "COMP": "set1_default"}),
     "conf_set2_default": dict(kind="tlc", module="Conf_Set2", cfg="Conf_Set2.cfg",
                               env={"GRAPH": "art:g_set2_default", "COMP": "set2_default"}),
+    "proof_keyboard": dict(kind="tlapm", files=["KeyboardProofs.tla", "Keyboard.tla"]),
     "props_scan": dict(kind="tlc", module="Props_Scan", cfg="Props_Scan.cfg", workers=1,
                        env={"GRAPH1": "art:g_set1", "GRAPH2": "art:g_set2"}),
 }
@@ -583,9 +610,9 @@ PROPS = {
     "C13": dict(quick=["props_scan", "mc_world", "world_q"], thorough=["props_scan", "mc_world_full", "world_t"],
                 graphs=["g_set1", "g_set2"]),
     "C19": dict(quick=["mc_set1", "mc_set2", "props_scan"], graphs=["g_set1", "g_set2"]),
-    "C18": dict(quick=["mc_keyboard_set2", "conf_kb2_mixedq", "conf_kb1_mixedq", "trace_kb2", "trace_kb1",
+    "C18": dict(quick=["mc_keyboard_set2", "proof_keyboard", "conf_kb2_mixedq", "conf_kb1_mixedq", "trace_kb2", "trace_kb1",
                        "conf_iso_kb2_q", "conf_iso_kb1_q"],
-                thorough=["mc_keyboard_set2", "mc_keyboard_set1", "mc_keyboard_set2_full", "conf_kb2_bits", "conf_kb1_bits",
+                thorough=["mc_keyboard_set2", "mc_keyboard_set1", "mc_keyboard_set2_full", "proof_keyboard", "conf_kb2_bits", "conf_kb1_bits",
                           "conf_kb2_mixedq", "conf_kb1_mixedq", "conf_kb2_mixed", "trace_kb2_long", "trace_kb1_long",
                           "conf_iso_kb2_t", "conf_iso_kb1_t"],
                 graphs=["g_kb2_mixedq", "g_kb1_mixedq"],
